@@ -93,6 +93,18 @@ Theorem c08_bsearch_is_find :
 Proof. exact (@get_is_find). Qed.
 Print Assumptions c08_bsearch_is_find.
 
+Theorem c08_bsearch_is_find_parser :
+  forall (V : Type) (eqb : V -> V -> bool),
+  forall (l : list (range * V)) x, wf_ranges l ->
+    rm_get (into_rangemap_safe_p eqb l) x = find_linear (into_rangemap_safe_p eqb l) x.
+Proof. exact (@get_is_find_p). Qed.
+Print Assumptions c08_bsearch_is_find_parser.
+
+Theorem c08_bsearch_is_find_win : forall p (l : list winrec) t x, wf_recs l ->
+  win_table p l = Ret t -> rm_get t x = find_linear t x.
+Proof. exact win_get_is_find. Qed.
+Print Assumptions c08_bsearch_is_find_win.
+
 (* unloaded modules: exactly the entries covering the address, in (start,end) order *)
 Theorem c08_unloaded_exact : forall (ranges : list (option range)) x i,
   In i (unloaded_at (unloaded_build ranges) x) <->
@@ -226,6 +238,14 @@ Theorem c08_gen_indexed_total : forall ranges : list (option range), wf_opt_rang
   g_build_indexed ranges = Ret (into_rangemap_safe Z.eqb (enumerate_from 0 ranges)).
 Proof. exact g_build_indexed_total. Qed.
 Print Assumptions c08_gen_indexed_total.
+
+(* the read-time filter of MinidumpModuleList::read, as generated: no trap, and it keeps exactly the raw modules
+   that have a memory_range() *)
+Theorem c08_gen_module_read_filter : forall p base size, u64 base -> u64 size ->
+  g_module_read_drop p base size = Ret (negb (module_read_keep base size)) /\
+  (module_read_keep base size = true <-> exists r, mk_range base size = Some r).
+Proof. exact g_module_read_drop_eq. Qed.
+Print Assumptions c08_gen_module_read_filter.
 
 (* hence: the generated STACK WIN pipeline never fails, for every list of records, in either profile *)
 Theorem c08_gen_win_total : forall p (l : list winrec), wf_recs l -> exists t, g_win_table p l = Ret t.
